@@ -1,6 +1,14 @@
 (* C10 / C11: scripted sources and sinks *)
-open Model
+module List = Stdlib.List
+module String = Stdlib.String
+module Printf = Stdlib.Printf
+open BinNums
+open Datatypes
 open Driver
+open Outcome
+open Version
+open ReadScript
+open WriteScript
 
 let ekind_of_sexp = function
   | A "Other" -> KOther | A "UnexpectedEof" -> KUnexpectedEof | A "Interrupted" -> KInterrupted
